@@ -66,7 +66,7 @@ M = [
  ("C10", "xfab/detector.py", "    Ltv = n.array([tx-distance, ty, tz])+ t*v\n    dety = n.sum(R_tilt[:, 1]*Ltv)/y_size + dety_center\n    detz = n.sum(R_tilt[:, 2]*Ltv)/z_size + detz_center\n    return [dety, detz]\n\ndef det_v", "    Ltv = n.array([tx-distance, ty, tz])+ t*v\n    dety = n.sum(R_tilt[1, :]*Ltv)/y_size + dety_center\n    detz = n.sum(R_tilt[:, 2]*Ltv)/z_size + detz_center\n    return [dety, detz]\n\ndef det_v", "det_coor2: row for column of the tilt"),
  # ---- C11
  ("C11", "xfab/detector.py", "        if o22 == -1:\n            if flipdir == 'forward':\n                img = n.flipud(img)\n            else: #inverse direction from (dety,detz) to imageformat\n                img = n.fliplr(img)", "        if o22 == -1:\n            if flipdir == 'forward':\n                img = n.fliplr(img)\n            else: #inverse direction from (dety,detz) to imageformat\n                img = n.flipud(img)", "trans_orientation: flips exchanged in the o22 branch (still undone by 'inverse')"),
- ("C11", "xfab/detector.py", "    if radpix < 1:\n        cos_eta = 1", "    if radpix < 2:\n        cos_eta = 1", "detyz_to_eta_and_radpix: radius threshold 1 -> 2"),
+ ("C11", "xfab/detector.py", "    if radpix < 1 - 1e-9:\n        cos_eta = 1", "    if radpix < 2:\n        cos_eta = 1", "detyz_to_eta_and_radpix: radius threshold 1 -> 2"),
  ("C11", "xfab/detector.py", "    omat = n.array([[o11, o12],\n                    [o21, o22]])\n    det_size = n.array([detz_size-1,\n                        dety_size-1])", "    omat = n.array([[o11, o12],\n                    [o21, o22]])\n    det_size = n.array([dety_size-1,\n                        detz_size-1])", "xy_to_detyz: det_size order"),
  # ---- C12
  ("C12", "xfab/symmetry.py", "        perm[17] = [[ 0,  0,  1], [ 1,  0,  0], [ 0,  1,  0]]", "        perm[17] = [[ 0,  0,  1], [ 1,  0,  0], [ 0, -1,  0]]", "cubic permutation entry"),
